@@ -15,6 +15,7 @@ type vLimEnv struct {
 	batch  []int // index of the batch (= number of Sleep calls before the send)
 	rtimes []int64 // clock reading right after each element was taken from the input
 	t0     int64
+	rate   Rate // the rate the user asked for (NOT what the discipline stored)
 }
 
 func vLimitSetup() *vLimEnv {
@@ -42,6 +43,7 @@ func vLimitSetup() *vLimEnv {
 	}
 	rate := Rate{Interval: time.Duration(vNondetI64("interval")), Quantity: vNondetU64("quantity")}
 	e.t0 = vNow()
+	e.rate = rate
 	d, err := New(Opts[int]{Input: in, Limit: rate})
 	if err != nil {
 		vAssert(rate.IsValid() != nil, "New rejects only invalid rates")
@@ -77,8 +79,8 @@ func VerifC04_limit_run() {
 	vTermWatch(d.output)
 	vRunSpawned(0) // the goroutine New started: main
 	vRunLeftoverSpawned()
-	Q := d.opts.Limit.Quantity
-	I := int64(d.opts.Limit.Interval)
+	Q := e.rate.Quantity
+	I := int64(e.rate.Interval)
 	// C12: lossless, ordered, closed afterwards
 	vAssert(len(e.out) == M, "C12: every element written is forwarded exactly once")
 	for i := range e.out {
